@@ -268,7 +268,7 @@ func c09Login(p []string) string {
 						pts[i].Text = prefix + pts[i].Text
 					}
 				}
-				if err := client.SendNodePoints(c09Srv.nc, c06ID(prefix, string(unhx(f[1]))), pts, true); err != nil {
+				if err := noteTmo(client.SendNodePoints(c09Srv.nc, c06ID(prefix, string(unhx(f[1]))), pts, true)); err != nil {
 					return "SETUP " + err.Error()
 				}
 			} else {
